@@ -1,7 +1,14 @@
 // C18 conformance harness: executes scripts of SimpleStringInternalCache calls on a private cache (`new` .. `del`), or of
 // SimpleStringCacheAllocator / SimpleString calls under a GlobalSimpleStringCache (`gnew` .. `gdel`), whose underlying
-// allocator records (and numbers) every allocation, and logs one ndjson line per call with the observations
+// allocator records (and numbers) every allocation, and logs one ndjson line per call on the cache with the observations
 // Trace_StrCache binds.  It never judges.
+// Strings that predate a global cache: `pnew k n` (before gnew: a SimpleString with an n-byte buffer from the previous
+// allocator), then under the cache `pdel k` (destroyed), `pset k n` (assigned an n-byte text), `pcat k n` (n characters
+// appended); `gnew 1` = the calls up to gdel run inside a test (UtestShell::runOneTest) whose TestResult prints into a
+// StringBufferTestOutput created before the cache, so the unknown-release warning is appended to a string that predates the
+// cache.  During these script calls a spy in front of the adaptor records every alloc_memory / free_memory call (with
+// nesting): one log line per call on the adaptor - alloc / dealloc / foreign / wbegin .. wend - all carrying `sl`, the
+// index of the script call.  Every execution is closed by an `end` line.
 //   strcache probe <out.ndjson> <maxsize>              one line per size: what a fresh cache does for alloc(s)+dealloc
 //   strcache run <script.tsv> <log.ndjson> <bound>...  script lines: op<TAB>a<TAB>n ; `reset` = fresh cache
 #include "vh.h"
@@ -14,7 +21,14 @@ struct Under { long id; size_t size; };
 static std::map<char*, Under> g_live;       // live underlying allocations by start address
 static long g_next_id = 1;
 static std::vector<long> g_got, g_ret;
-static std::string g_printed;
+static std::string g_printed;        // everything printed since the cache object was constructed (console + test output)
+static void locate(char* p, long& mem, long& room);
+
+// calls on the adaptor seen by the spy during one script call, in order of entry
+struct Ev { const char* op; size_t n; long mem, room; std::vector<long> got, ret; bool warn; };
+static std::vector<Ev> g_events;
+static std::vector<size_t> g_open;           // indices of the calls that have not returned yet
+static std::set<char*> g_cache_ptrs;         // pointers handed out by the cache / adaptor and not yet released to it
 
 class RecordingAllocator : public TestMemoryAllocator
 {
@@ -25,14 +39,15 @@ public:
         char* p = (char*) malloc(size ? size : 1);
         Under u; u.id = g_next_id++; u.size = size;
         g_live[p] = u;
-        g_got.push_back(u.id);
+        (g_open.empty() ? g_got : g_events[g_open.back()].got).push_back(u.id);
         return p;
     }
     void free_memory(char* memory, size_t, const char*, size_t) CPPUTEST_OVERRIDE
     {
         std::map<char*, Under>::iterator it = g_live.find(memory);
-        if (it == g_live.end()) { g_ret.push_back(0); return; }   // not (or no longer) a live allocation: logged, not executed
-        g_ret.push_back(it->second.id);
+        std::vector<long>& ret = g_open.empty() ? g_ret : g_events[g_open.back()].ret;
+        if (it == g_live.end()) { ret.push_back(0); return; }   // not (or no longer) a live allocation: logged, not executed
+        ret.push_back(it->second.id);
         g_live.erase(it);
         free(memory);
     }
@@ -40,6 +55,68 @@ public:
 
 static void capture_fputs(const char* s, PlatformSpecificFile) { g_printed += s; }
 static void no_flush() {}
+
+// the spy: forwards to the adaptor of the live global cache and records the call (entry order, nesting, what the
+// underlying allocator saw during the call itself, whether anything was printed before it returned)
+class SpyAllocator : public TestMemoryAllocator
+{
+public:
+    TestMemoryAllocator* target;
+    SpyAllocator() : TestMemoryAllocator("spy", "malloc", "free"), target(NULL) {}
+    static size_t enter(const char* op, size_t n, long mem)
+    {
+        Ev e; e.op = op; e.n = n; e.mem = mem; e.room = 0; e.warn = false;
+        g_events.push_back(e);
+        g_open.push_back(g_events.size() - 1);
+        return g_events.size() - 1;
+    }
+    static void leave(size_t idx, size_t printed_before)
+    {
+        g_open.pop_back();
+        g_events[idx].warn = g_printed.size() > printed_before;
+        if (g_events.size() > idx + 1 && std::string(g_events[idx].op) == "foreign") {
+            // calls arrived while this release was being served: it becomes a bracket around them
+            g_events[idx].op = "wbegin";
+            Ev e; e.op = "wend"; e.n = g_events[idx].n; e.mem = 0; e.room = 0; e.warn = false;
+            g_events.push_back(e);
+        }
+    }
+    char* alloc_memory(size_t size, const char* f, size_t l) CPPUTEST_OVERRIDE
+    {
+        size_t before = g_printed.size();
+        size_t idx = enter("alloc", size, 0);
+        char* p = target->alloc_memory(size, f, l);
+        long mem, room; locate(p, mem, room);
+        g_events[idx].mem = mem; g_events[idx].room = room;
+        g_cache_ptrs.insert(p);
+        leave(idx, before);
+        return p;
+    }
+    void free_memory(char* p, size_t size, const char* f, size_t l) CPPUTEST_OVERRIDE
+    {
+        size_t before = g_printed.size();
+        bool known = g_cache_ptrs.count(p) != 0;
+        long mem = 0, room = 0;
+        if (known) { locate(p, mem, room); g_cache_ptrs.erase(p); }
+        size_t idx = enter(known ? "dealloc" : "foreign", size, mem);
+        target->free_memory(p, size, f, l);
+        leave(idx, before);
+    }
+};
+
+// a test output that keeps its text in a SimpleString (the real StringBufferTestOutput); the harness keeps its own copy
+class CountingStringOutput : public StringBufferTestOutput
+{
+public:
+    void printBuffer(const char* s) CPPUTEST_OVERRIDE { g_printed += s; StringBufferTestOutput::printBuffer(s); }
+};
+
+static size_t count_warnings()
+{
+    size_t k = 0;
+    for (size_t at = g_printed.find("WARNING: Attempting to deallocate"); at != std::string::npos; at = g_printed.find("WARNING: Attempting to deallocate", at + 1)) k++;
+    return k;
+}
 
 struct Buf { char* p; size_t n; long mem; unsigned char pat; bool live; SimpleString* str; };
 
@@ -72,13 +149,207 @@ static void drop_all_underlying()
 
 static char g_foreign[4][32] = { "foreign-zero", "foreign-one", "foreign-two", "foreign-three" };
 
+// ---------------------------------------------------------------- the interpreter
+static RecordingAllocator rec;
+static SpyAllocator spy;
+static FILE* g_in = NULL;
+static FILE* g_out = NULL;
+static std::vector<size_t> bounds;
+static SimpleStringInternalCache* cache = NULL;     // the bare cache of this execution (op `new` .. `del`)
+static GlobalSimpleStringCache* global = NULL;      // the global cache of this execution (op `gnew` .. `gdel`)
+static TestMemoryAllocator* previous = NULL;        // the string allocator in place before the cache
+static std::vector<Buf> bufs;                       // bufs[k-1] = result of the k-th alloc / snew call of this execution
+static std::map<long, SimpleString*> pre;           // strings created before the global cache (pnew)
+static long g_sl = 0;                               // index of the script call within the execution
+static bool g_pending = false;                      // a line read inside a test body that has to be executed outside of it
+static std::string g_pending_line;
+static UtestShell* fx_shell = NULL;                 // `gnew 1`: the test the calls run in, its result and its output
+static TestResult* fx_result = NULL;
+static CountingStringOutput* fx_out = NULL;
+static bool g_run_body = false;
+
+enum { P_EOF, P_BODY_DONE, P_ERROR };
+static int process(bool in_body);
+
+class BodyTest : public Utest
+{
+public:
+    void testBody() CPPUTEST_OVERRIDE { process(true); }
+};
+class BodyShell : public UtestShell
+{
+public:
+    BodyShell() : UtestShell("verif", "body", "harness", 1) {}
+    Utest* createTest() CPPUTEST_OVERRIDE { return new BodyTest; }
+};
+
+static void emit(const char* op, long a, size_t n, long mem, long room, const std::vector<long>& got, const std::vector<long>& ret, bool warn,
+                 long nwarn, const std::string& hf, bool intact, const char* cur)
+{
+    fprintf(g_out, "{\"op\":%s,\"sl\":%ld,\"a\":%ld,\"n\":%lu,\"mem\":%ld,\"room\":%ld,\"got\":%s,\"ret\":%s,\"warn\":%s,\"nwarn\":%ld,\"hasfree\":%s,\"intact\":%s,\"cur\":\"%s\"}\n",
+            vh_jstr(op).c_str(), g_sl, a, (unsigned long) n, mem, room, ids(got).c_str(), ids(ret).c_str(),
+            warn ? "true" : "false", nwarn, hf.c_str(), intact ? "true" : "false", cur);
+}
+
+static int process(bool in_body)
+{
+    std::string line;
+    for (;;) {
+        if (g_pending) { line = g_pending_line; g_pending = false; }
+        else if (!vh_readline(g_in, line)) {
+            if (in_body) { g_pending = false; return P_BODY_DONE; }
+            fprintf(g_out, "{\"op\":\"end\",\"sl\":%ld}\n", g_sl);
+            return P_EOF;
+        }
+        if (line.empty()) continue;
+        std::vector<std::string> f = vh_split(line);
+        while (f.size() < 3) f.push_back("0");
+        const std::string& op = f[0];
+        long a = atol(f[1].c_str());
+        size_t n = (size_t) atol(f[2].c_str());
+        if (in_body && (op == "gdel" || op == "reset")) {      // the cache outlives the test: leave the body first
+            g_pending = true; g_pending_line = line;
+            return P_BODY_DONE;
+        }
+        if (op == "reset") {
+            // strings that outlived a global cache are abandoned, never destructed (their buffers went back with the cache)
+            if (cache) { cache->clearAllIncludingCurrentlyUsedMemory(); delete cache; cache = NULL; }
+            if (global) { delete global; global = NULL; }
+            SimpleString::setStringAllocator(NULLPTR);
+            drop_all_underlying();
+            bufs.clear(); pre.clear(); g_cache_ptrs.clear();
+            fprintf(g_out, "{\"op\":\"end\",\"sl\":%ld}\n{\"op\":\"reset\"}\n", g_sl);
+            g_sl = 0;
+            continue;
+        }
+        g_got.clear(); g_ret.clear(); g_events.clear(); g_open.clear();
+        size_t printed_before = g_printed.size();
+        long mem = 0, room = 0;
+        bool composite = false;
+        bool need_cache = !(op == "new" || op == "gnew" || op == "pnew");
+        if (need_cache && !cache && !global) { fprintf(g_out, "{\"op\":\"harness-error\",\"what\":\"no cache object\"}\n"); return P_ERROR; }
+        if (!need_cache && (cache || global)) { fprintf(g_out, "{\"op\":\"harness-error\",\"what\":\"cache object exists\"}\n"); return P_ERROR; }
+        if (op == "new") {
+            previous = SimpleString::getStringAllocator();
+            g_printed.clear(); printed_before = 0;
+            cache = new SimpleStringInternalCache;
+            cache->setAllocator(&rec);
+        } else if (op == "pnew" && n > 0) {
+            // a string that predates the cache: its buffer comes from the recording allocator = the previous string allocator
+            SimpleString::setStringAllocator(&rec);
+            previous = SimpleString::getStringAllocator();
+            std::string text(n - 1, (char) ('a' + a % 26));
+            pre[a] = new SimpleString(text.c_str());
+            locate(const_cast<char*>(pre[a]->asCharString()), mem, room);
+        } else if (op == "gnew") {
+            // the recording allocator is SimpleString's string allocator; the global cache installs itself over it
+            SimpleString::setStringAllocator(&rec);
+            previous = SimpleString::getStringAllocator();
+            g_printed.clear(); printed_before = 0;
+            if (a == 1) {            // a current test whose output string was created before the cache
+                fx_out = new CountingStringOutput;
+                fx_result = new TestResult(*fx_out);
+                fx_shell = new BodyShell;
+                g_run_body = true;
+            }
+            g_got.clear();
+            global = new GlobalSimpleStringCache;
+        } else if (op == "del" && cache) {
+            delete cache;
+            cache = NULL;
+        } else if (op == "gdel" && global) {
+            delete global;
+            global = NULL;
+            for (size_t i = 0; i < bufs.size(); i++) bufs[i].live = false;   // the owners are abandoned, not destructed
+            pre.clear(); g_cache_ptrs.clear();
+            fx_out = NULL; fx_result = NULL; fx_shell = NULL;                // ... and so are the test's result and output
+        } else if (op == "alloc") {
+            char* p = cache ? cache->alloc(n) : global->getAllocator()->alloc_memory(n, __FILE__, __LINE__);
+            locate(p, mem, room);
+            g_cache_ptrs.insert(p);
+            Buf b; b.p = p; b.n = n; b.mem = mem; b.pat = (unsigned char) (0x40 + (bufs.size() * 7) % 0xB0); b.live = true; b.str = NULL;
+            memset(p, b.pat, n);          // the owner uses every byte it asked for (ASan watches the bounds)
+            if (n) p[n - 1] = 0;          // ... as a terminated string (the unknown-release warning prints the buffer)
+            bufs.push_back(b);
+        } else if (op == "snew" && global && n > 0) {
+            // a SimpleString whose buffer has n bytes: exactly one buffer request through SimpleString's string allocator
+            Buf b; b.n = n; b.pat = (unsigned char) (0x40 + (bufs.size() * 7) % 0xB0); b.live = true;
+            std::string text(n - 1, (char) b.pat);
+            b.str = new SimpleString(text.c_str());
+            b.p = const_cast<char*>(b.str->asCharString());
+            locate(b.p, mem, room);
+            g_cache_ptrs.insert(b.p);
+            b.mem = mem;
+            bufs.push_back(b);
+        } else if (op == "dealloc" || op == "sdel") {
+            if (a < 1 || (size_t) a > bufs.size() || !bufs[(size_t) a - 1].live || (op == "sdel") != (bufs[(size_t) a - 1].str != NULL)) {
+                fprintf(g_out, "{\"op\":\"harness-error\",\"what\":\"no such buffer\"}\n"); return P_ERROR; }
+            Buf& b = bufs[(size_t) a - 1];
+            mem = b.mem;
+            b.live = false;
+            g_cache_ptrs.erase(b.p);
+            if (b.str) { n = b.str->size() + 1; delete b.str; b.str = NULL; }
+            else if (cache) cache->dealloc(b.p, n);
+            else global->getAllocator()->free_memory(b.p, n, __FILE__, __LINE__);
+        } else if (op == "foreign") {
+            if (cache) cache->dealloc(g_foreign[a & 3], n);
+            else global->getAllocator()->free_memory(g_foreign[a & 3], n, __FILE__, __LINE__);
+        } else if ((op == "pdel" || op == "pset" || op == "pcat") && global) {
+            if (!pre.count(a) || (op != "pdel" && n == 0)) { fprintf(g_out, "{\"op\":\"harness-error\",\"what\":\"no such string\"}\n"); return P_ERROR; }
+            composite = true;
+            spy.target = global->getAllocator();
+            SimpleString::setStringAllocator(&spy);
+            if (op == "pdel") { delete pre[a]; pre.erase(a); }
+            else if (op == "pset") { std::string text(n - 1, 's'); *pre[a] = SimpleString(text.c_str()); }
+            else { std::string text(n, 'c'); *pre[a] += text.c_str(); }
+            SimpleString::setStringAllocator(spy.target);
+        } else if (op == "clearcache" && cache) {
+            cache->clearCache();
+        } else if (op == "clearall" && cache) {
+            cache->clearAllIncludingCurrentlyUsedMemory();
+            for (size_t i = 0; i < bufs.size(); i++) bufs[i].live = false;
+            g_cache_ptrs.clear();
+        } else { fprintf(g_out, "{\"op\":\"harness-error\",\"what\":\"unknown op or wrong kind of cache\"}\n"); return P_ERROR; }
+
+        bool intact = true;
+        for (size_t i = 0; i < bufs.size() && intact; i++)
+            if (bufs[i].live)
+                for (size_t k = 0; k < bufs[i].n; k++)
+                    if ((unsigned char) bufs[i].p[k] != (k + 1 == bufs[i].n ? 0 : bufs[i].pat)) { intact = false; break; }
+        std::string hf = "[";
+        if (cache)
+            for (size_t i = 0; i < bounds.size(); i++) { hf += (i ? "," : ""); hf += cache->hasFreeBlocksOfSize(bounds[i]) ? "true" : "false"; }
+        hf += "]";
+        TestMemoryAllocator* now = SimpleString::getStringAllocator();
+        const char* cur = (global && now == global->getAllocator()) ? "cache" : (now == previous ? "under" : "other");
+        long nwarn = (long) count_warnings();
+        if (!composite)
+            emit(op.c_str(), a, n, mem, room, g_got, g_ret, g_printed.size() > printed_before, nwarn, hf, intact, cur);
+        else {
+            if (g_events.empty()) emit("nop", a, n, 0, 0, g_got, g_ret, false, nwarn, hf, intact, cur);
+            for (size_t i = 0; i < g_events.size(); i++) {
+                const Ev& e = g_events[i];
+                emit(e.op, a, e.n, e.mem, e.room, e.got, e.ret, e.warn, i + 1 == g_events.size() ? nwarn : -1, hf, intact, cur);
+            }
+        }
+        g_sl++;
+        // between two cache objects SimpleString uses its default allocator again (the recording allocator sees only what a
+        // cache obtains; a dangling adaptor is never left installed)
+        if (!global && !cache) SimpleString::setStringAllocator(NULLPTR);
+        if (g_run_body) {
+            // the script calls up to gdel run inside a test: UtestShell::getCurrent() is that test, its result prints into fx_out
+            g_run_body = false;
+            fx_shell->runOneTest(NullTestPlugin::instance(), *fx_result);
+        }
+    }
+}
+
 int main(int argc, char** argv)
 {
     if (argc < 4) return 2;
     std::string mode = argv[1];
     PlatformSpecificFPuts = capture_fputs;
     PlatformSpecificFlush = no_flush;
-    RecordingAllocator rec;
 
     if (mode == "probe") {
         FILE* out = fopen(argv[2], "w");
@@ -105,111 +376,16 @@ int main(int argc, char** argv)
         _exit(0);
     }
 
-    FILE* in = fopen(argv[2], "r");
-    FILE* out = fopen(argv[3], "w");
-    if (!in || !out) return 2;
-    vh_install(out);
-    setvbuf(out, NULL, _IOLBF, 0);      // a sanitizer abort does not flush stdio: every completed call must already be in the log
-    std::vector<size_t> bounds;
+    g_in = fopen(argv[2], "r");
+    g_out = fopen(argv[3], "w");
+    if (!g_in || !g_out) return 2;
+    vh_install(g_out);
+    setvbuf(g_out, NULL, _IOLBF, 0);      // a sanitizer abort does not flush stdio: every completed call must already be in the log
     for (int i = 4; i < argc; i++) bounds.push_back((size_t) atol(argv[i]));
-
-    SimpleStringInternalCache* cache = NULL;     // the bare cache of this execution (op `new` .. `del`)
-    GlobalSimpleStringCache* global = NULL;      // the global cache of this execution (op `gnew` .. `gdel`)
-    TestMemoryAllocator* previous = SimpleString::getStringAllocator();   // the string allocator in place before the cache
-    std::vector<Buf> bufs;          // bufs[k-1] = result of the k-th alloc / snew call of this execution
-    std::string line;
-    while (vh_readline(in, line)) {
-        if (line.empty()) continue;
-        std::vector<std::string> f = vh_split(line);
-        while (f.size() < 3) f.push_back("0");
-        const std::string& op = f[0];
-        long a = atol(f[1].c_str());
-        size_t n = (size_t) atol(f[2].c_str());
-        if (op == "reset") {
-            // strings that outlived a global cache are abandoned, never destructed (their buffers went back with the cache)
-            if (cache) { cache->clearAllIncludingCurrentlyUsedMemory(); delete cache; cache = NULL; }
-            if (global) { delete global; global = NULL; }
-            SimpleString::setStringAllocator(NULLPTR);
-            drop_all_underlying();
-            bufs.clear();
-            fprintf(out, "{\"op\":\"reset\"}\n");
-            continue;
-        }
-        g_got.clear(); g_ret.clear(); g_printed.clear();
-        long mem = 0, room = 0;
-        bool need_cache = !(op == "new" || op == "gnew");
-        if (need_cache && !cache && !global) { fprintf(out, "{\"op\":\"harness-error\",\"what\":\"no cache object\"}\n"); break; }
-        if (!need_cache && (cache || global)) { fprintf(out, "{\"op\":\"harness-error\",\"what\":\"cache object exists\"}\n"); break; }
-        if (op == "new") {
-            previous = SimpleString::getStringAllocator();
-            cache = new SimpleStringInternalCache;
-            cache->setAllocator(&rec);
-        } else if (op == "gnew") {
-            // the recording allocator is SimpleString's string allocator; the global cache installs itself over it
-            SimpleString::setStringAllocator(&rec);
-            previous = SimpleString::getStringAllocator();
-            global = new GlobalSimpleStringCache;
-        } else if (op == "del" && cache) {
-            delete cache;
-            cache = NULL;
-        } else if (op == "gdel" && global) {
-            delete global;
-            global = NULL;
-            for (size_t i = 0; i < bufs.size(); i++) bufs[i].live = false;   // the owners are abandoned, not destructed
-        } else if (op == "alloc") {
-            char* p = cache ? cache->alloc(n) : global->getAllocator()->alloc_memory(n, __FILE__, __LINE__);
-            locate(p, mem, room);
-            Buf b; b.p = p; b.n = n; b.mem = mem; b.pat = (unsigned char) (0x40 + (bufs.size() * 7) % 0xB0); b.live = true; b.str = NULL;
-            memset(p, b.pat, n);          // the owner uses every byte it asked for (ASan watches the bounds)
-            if (n) p[n - 1] = 0;          // ... as a terminated string (the unknown-release warning prints the buffer)
-            bufs.push_back(b);
-        } else if (op == "snew" && global && n > 0) {
-            // a SimpleString whose buffer has n bytes: exactly one buffer request through SimpleString's string allocator
-            Buf b; b.n = n; b.pat = (unsigned char) (0x40 + (bufs.size() * 7) % 0xB0); b.live = true;
-            std::string text(n - 1, (char) b.pat);
-            b.str = new SimpleString(text.c_str());
-            b.p = const_cast<char*>(b.str->asCharString());
-            locate(b.p, mem, room);
-            b.mem = mem;
-            bufs.push_back(b);
-        } else if (op == "dealloc" || op == "sdel") {
-            if (a < 1 || (size_t) a > bufs.size() || !bufs[(size_t) a - 1].live || (op == "sdel") != (bufs[(size_t) a - 1].str != NULL)) {
-                fprintf(out, "{\"op\":\"harness-error\",\"what\":\"no such buffer\"}\n"); break; }
-            Buf& b = bufs[(size_t) a - 1];
-            mem = b.mem;
-            b.live = false;
-            if (b.str) { n = b.str->size() + 1; delete b.str; b.str = NULL; }
-            else if (cache) cache->dealloc(b.p, n);
-            else global->getAllocator()->free_memory(b.p, n, __FILE__, __LINE__);
-        } else if (op == "foreign") {
-            if (cache) cache->dealloc(g_foreign[a & 3], n);
-            else global->getAllocator()->free_memory(g_foreign[a & 3], n, __FILE__, __LINE__);
-        } else if (op == "clearcache" && cache) {
-            cache->clearCache();
-        } else if (op == "clearall" && cache) {
-            cache->clearAllIncludingCurrentlyUsedMemory();
-            for (size_t i = 0; i < bufs.size(); i++) bufs[i].live = false;
-        } else { fprintf(out, "{\"op\":\"harness-error\",\"what\":\"unknown op or wrong kind of cache\"}\n"); break; }
-
-        bool intact = true;
-        for (size_t i = 0; i < bufs.size() && intact; i++)
-            if (bufs[i].live)
-                for (size_t k = 0; k < bufs[i].n; k++)
-                    if ((unsigned char) bufs[i].p[k] != (k + 1 == bufs[i].n ? 0 : bufs[i].pat)) { intact = false; break; }
-        std::string hf = "[";
-        if (cache)
-            for (size_t i = 0; i < bounds.size(); i++) { hf += (i ? "," : ""); hf += cache->hasFreeBlocksOfSize(bounds[i]) ? "true" : "false"; }
-        hf += "]";
-        TestMemoryAllocator* now = SimpleString::getStringAllocator();
-        const char* cur = (global && now == global->getAllocator()) ? "cache" : (now == previous ? "under" : "other");
-        fprintf(out, "{\"op\":%s,\"a\":%ld,\"n\":%lu,\"mem\":%ld,\"room\":%ld,\"got\":%s,\"ret\":%s,\"warn\":%s,\"hasfree\":%s,\"intact\":%s,\"cur\":\"%s\"}\n",
-                vh_jstr(op).c_str(), a, (unsigned long) n, mem, room, ids(g_got).c_str(), ids(g_ret).c_str(),
-                g_printed.empty() ? "false" : "true", hf.c_str(), intact ? "true" : "false", cur);
-        // between two cache objects SimpleString uses its default allocator again (the recording allocator sees only what a
-        // cache obtains; a dangling adaptor is never left installed)
-        if (!global && !cache) SimpleString::setStringAllocator(NULLPTR);
-    }
-    fflush(out);
-    fclose(out);
+    previous = SimpleString::getStringAllocator();
+    NullTestPlugin::instance();           // its name is a static string: constructed now, not under a cache
+    process(false);
+    fflush(g_out);
+    fclose(g_out);
     _exit(0);
 }
